@@ -91,4 +91,58 @@ theorem c09_roundtrip_jwe_final (P : Prims) (E : Env) (K : KeyEnv) (T : KeyTable
     jwtDecodeJwe P E K T Z reg tok key' = .ok (e.obj.prot, claims) :=
   c09_jwe_compose P E K T C Z reg header claims key key' hjson tok e h _ hrt
 
+/-- **A*GCMKW**: the header returned is `{"typ":"JWT", **header}` plus the generated `iv` and `tag`. -/
+theorem c09_roundtrip_jwe_gcmkw (P : Prims) (L : C04.AeadLaws P) (KL : C04.KwLaws P) (O : C04.OctLaws P)
+    (hgcmB : ∀ k iv aad p c t, P.gcmEncrypt k iv aad p = .ok (c, t) → IsBytes c)
+    (JL : ∀ v bs, P.jsonDumps v = .ok bs → IsBytes bs ∧ P.jsonLoads bs = .ok v)
+    (hjson : ∀ v bs, P.jsonDumpsUtf8 v = .ok bs → IsBytes bs ∧ P.jsonLoads bs = .ok v)
+    (E : Env) (K : KeyEnv) (T : KeyTables) (C : EncConsts) (Z : ZipConsts) (reg : JweRegistry)
+    (header claims : Dict) (k : Key) (tok : Bytes) (e : Encrypted)
+    (algv : JVal) (alg : JweAlgRow) (hav : pyGetItemStr (.obj (jwtHeader header)) "alg" = .ok algv) (hga : reg.getAlg algv = .ok alg)
+    (hc : alg.cls = "AESGCMAlgModel") (hmode : alg.directMode = false ∧ alg.agreement = false)
+    (h8 : ∀ enc encv, (jwtHeader header).get? "enc" = some encv → reg.getEnc encv = .ok enc → enc.ivSize % 8 = 0 ∧ enc.cekSize % 8 = 0)
+    (h : jwtEncodeJwe P E K T C reg header claims (.base (.key k)) = .ok (tok, e))
+    (hop : k.checkKeyOp E.ops "unwrapKey" = .ok ())
+    (hchk : reg.checkHeader (.obj e.obj.prot) true = .ok ())
+    (hz : ∀ pt, C04.ZipUndone P Z reg e.obj.prot pt) :
+    jwtDecodeJwe P E K T Z reg tok (.base (.key k)) = .ok (e.obj.prot, claims) ∧
+    (∀ kk, kk ≠ "iv" → kk ≠ "tag" → e.obj.prot.get? kk = (jwtHeader header).get? kk) := by
+  have hpay : ∃ payload, encryptCompact P E K T C reg (jwtHeader header) payload (.base (.key k)) none = .ok (tok, e) := by
+    simp only [jwtEncodeJwe, bind_eq_ok] at h
+    obtain ⟨payload, _, henc⟩ := h
+    exact ⟨payload, henc⟩
+  obtain ⟨payload0, henc0⟩ := hpay
+  refine ⟨c09_roundtrip_jwe_final P E K T C Z reg header claims _ _ hjson tok e h fun payload henc =>
+    (C04.c04_compact_token_gcmkw P L KL O hgcmB JL E K T C Z reg _ payload k tok e algv alg hav hga hc hmode h8 henc hop hchk (hz payload)).1, ?_⟩
+  exact (C04.c04_compact_token_gcmkw P L KL O hgcmB JL E K T C Z reg _ payload0 k tok e algv alg hav hga hc hmode h8 henc0 hop hchk
+    (hz payload0)).2.1
+
+/-- **ECDH-ES** (direct key agreement): the header returned is `{"typ":"JWT", **header}` plus the published `epk`. -/
+theorem c09_roundtrip_jwe_ecdh_es (P : Prims) (L : C04.AeadLaws P) (O : C04.OctLaws P)
+    (JL : ∀ v bs, P.jsonDumps v = .ok bs → IsBytes bs ∧ P.jsonLoads bs = .ok v)
+    (hjson : ∀ v bs, P.jsonDumpsUtf8 v = .ok bs → IsBytes bs ∧ P.jsonLoads bs = .ok v)
+    (E : Env) (K : KeyEnv) (T : KeyTables) (C : EncConsts) (Z : ZipConsts) (reg : JweRegistry)
+    (header claims : Dict) (pk sk : Key) (hkty : sk.kty = pk.kty) (tok : Bytes) (e : Encrypted)
+    (algv : JVal) (alg : JweAlgRow) (hav : pyGetItemStr (.obj (jwtHeader header)) "alg" = .ok algv) (hga : reg.getAlg algv = .ok alg)
+    (hcls : (alg.cls == "ECDH1PUAlgModel") = false) (hmode : alg.directMode = true ∧ alg.agreement = true)
+    (hdh : ∀ eph epkd, P.genEphemeral 0 pk = .ok eph → eph.asDict T (some false) [] = .ok epkd →
+      ∃ epk, importEpk P T sk.kty (.obj epkd) = .ok epk ∧ exchangeDeriveKey P E sk epk = exchangeDeriveKey P E eph pk)
+    (h8 : ∀ enc encv, (jwtHeader header).get? "enc" = some encv → reg.getEnc encv = .ok enc → enc.ivSize % 8 = 0)
+    (h : jwtEncodeJwe P E K T C reg header claims (.base (.key pk)) = .ok (tok, e))
+    (huse : sk.checkUse "enc" = .ok ())
+    (hchk : reg.checkHeader (.obj e.obj.prot) true = .ok ())
+    (hz : ∀ pt, C04.ZipUndone P Z reg e.obj.prot pt) :
+    jwtDecodeJwe P E K T Z reg tok (.base (.key sk)) = .ok (e.obj.prot, claims) ∧
+    (∀ kk, kk ≠ "epk" → e.obj.prot.get? kk = (jwtHeader header).get? kk) := by
+  have hpay : ∃ payload, encryptCompact P E K T C reg (jwtHeader header) payload (.base (.key pk)) none = .ok (tok, e) := by
+    simp only [jwtEncodeJwe, bind_eq_ok] at h
+    obtain ⟨payload, _, henc⟩ := h
+    exact ⟨payload, henc⟩
+  obtain ⟨payload0, henc0⟩ := hpay
+  refine ⟨c09_roundtrip_jwe_final P E K T C Z reg header claims _ _ hjson tok e h fun payload henc =>
+    (C04.c04_compact_token_ecdh_es P L O JL E K T C Z reg _ payload pk sk hkty tok e algv alg hav hga hcls hmode hdh h8 henc huse hchk
+      (hz payload)).1, ?_⟩
+  exact (C04.c04_compact_token_ecdh_es P L O JL E K T C Z reg _ payload0 pk sk hkty tok e algv alg hav hga hcls hmode hdh h8 henc0 huse hchk
+    (hz payload0)).2
+
 end Jose.C09
